@@ -1,15 +1,1015 @@
 (* Proofs about the executable model of the simplifier (models/Simplifier.v).  Syntactic facts
-   only: no semantic domain is used here. *)
+   only: no semantic domain is used here.  Everything holds for EVERY order oracle. *)
 From Coq Require Import List ZArith Bool String Lia.
-From PySMT.core Require Import Syntax PyPrims.
+From PySMT.core Require Import Syntax SyntaxLemmas PyPrims.
 From PySMT.models Require Import TypeChecker Oracles Ctors Simplifier.
+From PySMT.proofs Require Import Sets_proofs.
 Import ListNotations.
 Open Scope bool_scope.
 
-(* constants are fixed points, for every order oracle *)
-Lemma simplify_constant : forall ora o, 
+(* ------------------------------------------------------------------ constants are fixed points *)
+Lemma simplify_constant : forall ora o,
   match o with OBoolC _ | OIntC _ | ORealC _ _ | OBVC _ _ | OStrC _ => True | _ => False end ->
   simplify_opt ora (T o []) = Some (T o []).
 Proof.
   intros ora o H. destruct o; try contradiction; reflexivity.
+Qed.
+
+(* ------------------------------------------------------------------ free symbols: basics *)
+(* [sub S t]: every free symbol of t is in S *)
+Definition sub (S : list var) (t : term) : Prop := incl (fv t) S.
+
+(* operators whose free symbols are exactly those of their arguments *)
+Definition transparent (o : op) : bool :=
+  match o with
+  | OSymbol _ _ | OFunction _ _ | OForall _ | OExists _
+  | OBoolC _ | OIntC _ | ORealC _ _ | OBVC _ _ | OStrC _ => false
+  | _ => true
+  end.
+
+Lemma In_unions_fv v xs : In v (unions var_eqb (map fv xs)) <-> exists a, In a xs /\ In v (fv a).
+Proof.
+  rewrite (unions_In var_eqb var_eqb_eq). split.
+  - intros (l & Hl & Hv). apply in_map_iff in Hl. destruct Hl as (a & <- & Ha). eauto.
+  - intros (a & Ha & Hv). exists (fv a). split; auto. now apply in_map.
+Qed.
+
+Lemma fv_transparent o xs : transparent o = true -> fv (T o xs) = unions var_eqb (map fv xs).
+Proof. destruct o; cbn; try discriminate; reflexivity. Qed.
+
+Lemma sub_node S o xs : transparent o = true -> (sub S (T o xs) <-> Forall (sub S) xs).
+Proof.
+  intros Ho. unfold sub. rewrite (fv_transparent _ _ Ho). rewrite Forall_forall. split.
+  - intros H a Ha v Hv. apply H. apply In_unions_fv. eauto.
+  - intros H v Hv. apply In_unions_fv in Hv. destruct Hv as (a & Ha & Hv). exact (H a Ha v Hv).
+Qed.
+
+Lemma sub_node_intro S o xs : transparent o = true -> Forall (sub S) xs -> sub S (T o xs).
+Proof. intros Ho H. now apply sub_node. Qed.
+Lemma sub_node_elim S o xs : transparent o = true -> sub S (T o xs) -> Forall (sub S) xs.
+Proof. intros Ho H. now apply (sub_node S o xs Ho). Qed.
+
+Lemma sub_closed S o xs :
+  match o with OBoolC _ | OIntC _ | ORealC _ _ | OBVC _ _ | OStrC _ => True | _ => False end ->
+  sub S (T o xs).
+Proof. destruct o; try contradiction; intros _ x Hx; cbn in Hx; contradiction. Qed.
+
+Lemma sub_arg S a i : transparent (top a) = true -> sub S a -> sub S (arg a i).
+Proof.
+  destruct a as [o xs]. cbn [top]. intros Ho H. unfold arg. cbn [targs].
+  pose proof (sub_node_elim S o xs Ho H) as F. rewrite Forall_forall in F.
+  destruct (nth_in_or_default i xs (T o xs)) as [Hin | ->]; auto.
+Qed.
+
+#[export] Hint Resolve sub_node_intro sub_closed : subdb.
+
+(* constants built by the constructors *)
+Lemma sub_mk_bool S b : sub S (mk_bool b). Proof. now apply sub_closed. Qed.
+Lemma sub_mk_int S z : sub S (mk_int z). Proof. now apply sub_closed. Qed.
+Lemma sub_mk_real S f : sub S (mk_real f).
+Proof. unfold mk_real. destruct (fr_norm (fst f) (snd f)). now apply sub_closed. Qed.
+Lemma sub_mk_string S s : sub S (mk_string s). Proof. now apply sub_closed. Qed.
+Lemma sub_TTrue S : sub S TTrue. Proof. now apply sub_closed. Qed.
+Lemma sub_TFalse S : sub S TFalse. Proof. now apply sub_closed. Qed.
+Lemma sub_mk_bv S v w r : mk_bv v w = Some r -> sub S r.
+Proof.
+  unfold mk_bv. destruct (v <? 0)%Z; [discriminate|]. destruct (2 ^ w <=? v)%Z; [discriminate|].
+  intros H; inversion H. now apply sub_closed.
+Qed.
+Lemma sub_mk_bvzero S w r : mk_bvzero w = Some r -> sub S r.
+Proof. apply sub_mk_bv. Qed.
+Lemma sub_mk_bv_bits S bits w r : mk_bv_bits bits w = Some r -> sub S r.
+Proof.
+  unfold mk_bv_bits. destruct (int_of_bits bits); [|discriminate].
+  destruct w as [w'|]; [destruct (w' =? zlen bits)%Z; [|discriminate]|]; apply sub_mk_bv.
+Qed.
+#[export] Hint Resolve sub_mk_bool sub_mk_int sub_mk_real sub_mk_string sub_TTrue sub_TFalse : subdb.
+#[export] Hint Immediate sub_mk_bv sub_mk_bvzero sub_mk_bv_bits : subdb.
+
+(* ------------------------------------------------------------------ tactics *)
+Ltac sub_tac :=
+  repeat match goal with
+         | H : sub ?S ?t |- sub ?S ?t => exact H
+         | |- sub _ (T _ _) => apply sub_node_intro; [reflexivity | ]
+         | H : Forall ?P ?l |- Forall ?P ?l => exact H
+         | |- Forall _ (_ :: _) => constructor
+         | |- Forall _ [] => constructor
+         end; eauto with subdb.
+
+Ltac destr_in H :=
+  match type of H with
+  | context [match ?x with _ => _ end] => destruct x eqn:?
+  end.
+(* case analysis on every match / if of a hypothesis [rule ... = Some r] *)
+Ltac crush H :=
+  repeat (destr_in H; try discriminate H);
+  try discriminate H;
+  try match type of H with Some _ = Some _ => inversion H; subst; clear H end.
+
+(* ------------------------------------------------------------------ constructors *)
+Lemma is_not_top a : is_not a = true -> top a = ONot.
+Proof. unfold is_not. destruct (top a); try discriminate; auto. Qed.
+Lemma is_and_top a : is_and a = true -> top a = OAnd.
+Proof. unfold is_and. destruct (top a); try discriminate; auto. Qed.
+Lemma is_or_top a : is_or a = true -> top a = OOr.
+Proof. unfold is_or. destruct (top a); try discriminate; auto. Qed.
+Lemma is_minus_top a : is_minus a = true -> top a = OMinus.
+Proof. unfold is_minus. destruct (top a); try discriminate; auto. Qed.
+
+Lemma sub_targs S a : transparent (top a) = true -> sub S a -> Forall (sub S) (targs a).
+Proof. destruct a as [o xs]. cbn. apply sub_node_elim. Qed.
+
+Lemma sub_mk_not S a : sub S a -> sub S (mk_not a).
+Proof.
+  intros H. unfold mk_not. destruct (is_not a) eqn:E.
+  - apply sub_arg; auto. now rewrite (is_not_top _ E).
+  - sub_tac.
+Qed.
+Lemma sub_mk_and S l : Forall (sub S) l -> sub S (mk_and l).
+Proof.
+  intros H. unfold mk_and. destruct l as [|x [|y r]]; [sub_tac | now inversion H | now apply sub_node_intro].
+Qed.
+Lemma sub_mk_or S l : Forall (sub S) l -> sub S (mk_or l).
+Proof.
+  intros H. unfold mk_or. destruct l as [|x [|y r]]; [sub_tac | now inversion H | now apply sub_node_intro].
+Qed.
+Lemma sub_mk_plus S l r : mk_plus l = Some r -> Forall (sub S) l -> sub S r.
+Proof.
+  unfold mk_plus. destruct l as [|x [|y t]]; intros E H; inversion E; subst; [now inversion H | now apply sub_node_intro].
+Qed.
+Lemma sub_mk_times S l r : mk_times l = Some r -> Forall (sub S) l -> sub S r.
+Proof.
+  unfold mk_times. destruct l as [|x [|y t]]; intros E H; inversion E; subst; [now inversion H | now apply sub_node_intro].
+Qed.
+Lemma sub_mk_bin S (f : term -> term -> term) a b :
+  (exists o, transparent o = true /\ forall a b, f a b = T o [a; b]) -> sub S a -> sub S b -> sub S (f a b).
+Proof. intros (o & Ho & E) Ha Hb. rewrite E. apply sub_node_intro; auto. Qed.
+Lemma sub_mk_div S a b r : mk_div a b = Some r -> sub S a -> sub S b -> sub S r.
+Proof.
+  unfold mk_div. intros E Ha Hb. crush E; try sub_tac.
+  eapply sub_mk_times; eauto. sub_tac.
+Qed.
+Lemma sub_mk_pow S a b r : mk_pow a b = Some r -> sub S a -> sub S b -> sub S r.
+Proof. unfold mk_pow. intros E Ha Hb. crush E; sub_tac. Qed.
+Lemma sub_mk_toreal S a r : mk_toreal a = Some r -> sub S a -> sub S r.
+Proof. unfold mk_toreal. intros E Ha. crush E; sub_tac. Qed.
+Lemma sub_mk_bvextract S a s e r : mk_bvextract a s e = Some r -> sub S a -> sub S r.
+Proof. unfold mk_bvextract. intros E Ha. crush E; sub_tac. Qed.
+Lemma sub_mk_strconcat S l r : mk_strconcat l = Some r -> Forall (sub S) l -> sub S r.
+Proof. unfold mk_strconcat. intros E H. crush E; sub_tac. Qed.
+Lemma sub_mk_strop S k l : Forall (sub S) l -> sub S (mk_strop k l).
+Proof. intros H. unfold mk_strop. sub_tac. Qed.
+
+#[export] Hint Resolve sub_mk_not sub_mk_and sub_mk_or sub_mk_strop : subdb.
+#[export] Hint Extern 1 (sub _ (mk_implies _ _)) => unfold mk_implies; sub_tac : subdb.
+#[export] Hint Extern 1 (sub _ (mk_iff _ _)) => unfold mk_iff; sub_tac : subdb.
+#[export] Hint Extern 1 (sub _ (mk_equals _ _)) => unfold mk_equals; sub_tac : subdb.
+#[export] Hint Extern 1 (sub _ (mk_ite _ _ _)) => unfold mk_ite; sub_tac : subdb.
+#[export] Hint Extern 1 (sub _ (mk_le _ _)) => unfold mk_le; sub_tac : subdb.
+#[export] Hint Extern 1 (sub _ (mk_lt _ _)) => unfold mk_lt; sub_tac : subdb.
+#[export] Hint Extern 1 (sub _ (mk_minus _ _)) => unfold mk_minus; sub_tac : subdb.
+#[export] Hint Extern 1 (sub _ (mk_bvop _ _ _)) => unfold mk_bvop; sub_tac : subdb.
+#[export] Hint Extern 1 (sub _ (mk_bvun _ _)) => unfold mk_bvun; sub_tac : subdb.
+#[export] Hint Extern 1 (sub _ (mk_bvconcat _ _)) => unfold mk_bvconcat; sub_tac : subdb.
+#[export] Hint Extern 1 (sub _ (mk_bvcomp _ _)) => unfold mk_bvcomp; sub_tac : subdb.
+#[export] Hint Extern 1 (sub _ (mk_bvrel _ _ _)) => unfold mk_bvrel; sub_tac : subdb.
+#[export] Hint Extern 1 (sub _ (mk_bvrol _ _)) => unfold mk_bvrol; sub_tac : subdb.
+#[export] Hint Extern 1 (sub _ (mk_bvror _ _)) => unfold mk_bvror; sub_tac : subdb.
+#[export] Hint Extern 1 (sub _ (mk_bvzext _ _)) => unfold mk_bvzext; sub_tac : subdb.
+#[export] Hint Extern 1 (sub _ (mk_bvsext _ _)) => unfold mk_bvsext; sub_tac : subdb.
+#[export] Hint Extern 1 (sub _ (mk_select _ _)) => unfold mk_select; sub_tac : subdb.
+#[export] Hint Extern 1 (sub _ (mk_store _ _ _)) => unfold mk_store; sub_tac : subdb.
+#[export] Hint Immediate sub_mk_bvextract sub_mk_toreal : subdb.
+
+(* ------------------------------------------------------------------ Boolean rules *)
+Lemma sub_r_not S a : sub S a -> sub S (r_not a).
+Proof.
+  intros H. unfold r_not. destruct (top a) eqn:E; auto with subdb.
+  apply sub_arg; auto. now rewrite E.
+Qed.
+#[export] Hint Resolve sub_r_not : subdb.
+
+Lemma Forall_add S s acc : sub S s -> Forall (sub S) acc -> Forall (sub S) (add term_eqb s acc).
+Proof.
+  intros Hs Ha. unfold add. destruct (mem term_eqb s acc); auto.
+  apply Forall_app. split; auto.
+Qed.
+Lemma sub_add_lits S ls : forall acc l, Forall (sub S) ls -> Forall (sub S) acc ->
+  add_lits ls acc = Some l -> Forall (sub S) l.
+Proof.
+  induction ls as [|s r IH]; intros acc l Hls Hacc E; cbn in E.
+  - now inversion E; subst.
+  - inversion Hls; subst. destruct (mem term_eqb (r_not s) acc); [discriminate|].
+    apply (IH (add term_eqb s acc) l); auto. now apply Forall_add.
+Qed.
+Lemma sub_nary_loop S skip absorb flat :
+  (forall a, flat a = true -> transparent (top a) = true) ->
+  forall args acc l, Forall (sub S) args -> Forall (sub S) acc ->
+  nary_loop skip absorb flat args acc = Some l -> Forall (sub S) l.
+Proof.
+  intros Hflat. induction args as [|a r IH]; intros acc l Hargs Hacc E; cbn in E.
+  - now inversion E; subst.
+  - inversion Hargs; subst. destruct (skip a); [eauto|]. destruct (absorb a); [discriminate|].
+    destruct (add_lits (if flat a then targs a else [a]) acc) as [acc'|] eqn:E2; [|discriminate].
+    apply (IH acc' l); auto. eapply sub_add_lits; [| exact Hacc | exact E2].
+    destruct (flat a) eqn:F; [apply sub_targs; auto | auto].
+Qed.
+
+(* permutations found by perm_eqb *)
+Lemma remove_first_spec {A} (eqb : A -> A -> bool) (Heq : forall a b, eqb a b = true -> a = b) x :
+  forall l l', remove_first eqb x l = Some l' ->
+  In x l /\ incl l' l /\ (forall z, In z l -> z = x \/ In z l').
+Proof.
+  induction l as [|y r IH]; intros l' E; cbn in E; [discriminate|].
+  destruct (eqb x y) eqn:Exy.
+  - inversion E; subst. apply Heq in Exy. subst. repeat split; cbn; auto.
+    + intros z Hz. cbn. auto.
+    + intros z [<-|Hz]; auto.
+  - destruct (remove_first eqb x r) as [r'|] eqn:E2; [|discriminate]. inversion E; subst.
+    destruct (IH _ eq_refl) as (H1 & H2 & H3). repeat split; cbn; auto.
+    + intros z [<-|Hz]; cbn; auto.
+    + intros z [<-|Hz]; cbn; auto. destruct (H3 z Hz); auto.
+Qed.
+Lemma perm_eqb_incl {A} (eqb : A -> A -> bool) (Heq : forall a b, eqb a b = true -> a = b) :
+  forall l1 l2, perm_eqb eqb l1 l2 = true -> incl l1 l2 /\ incl l2 l1.
+Proof.
+  induction l1 as [|x r IH]; intros l2 E; cbn in E.
+  - destruct l2; [|discriminate]. split; intros z Hz; auto.
+  - destruct (remove_first eqb x l2) as [l2'|] eqn:E2; [|discriminate].
+    destruct (remove_first_spec eqb Heq x _ _ E2) as (H1 & H2 & H3).
+    destruct (IH _ E) as (I1 & I2). split.
+    + intros z [<-|Hz]; auto.
+    + intros z Hz. destruct (H3 z Hz) as [->|Hz']; cbn; auto.
+Qed.
+Lemma term_eqb_sound a b : term_eqb a b = true -> a = b.
+Proof. apply term_eqb_eq. Qed.
+Lemma terms_eqb_sound l1 l2 : list_eqb term_eqb l1 l2 = true -> l1 = l2.
+Proof. apply list_eqb_eq. apply Forall_forall. intros x _ y. apply term_eqb_eq. Qed.
+Lemma var_eqb_sound a b : var_eqb a b = true -> a = b.
+Proof. apply var_eqb_eq. Qed.
+
+Lemma sub_same_upto_order S r r' : same_upto_order r r' = true -> sub S r -> sub S r'.
+Proof.
+  destruct r as [o l], r' as [o' l']. unfold same_upto_order. intros E H.
+  destruct o; try discriminate; destruct o'; try discriminate.
+  - (* Forall *)
+    apply andb_true_iff in E. destruct E as [Ev El].
+    apply terms_eqb_sound in El. subst l'.
+    destruct (perm_eqb_incl var_eqb var_eqb_sound _ _ Ev) as (I1 & I2).
+    intros x Hx. apply H. cbn [fv] in *.
+    apply (diff_In var_eqb var_eqb_eq) in Hx. destruct Hx as [Hx Hn].
+    apply (diff_In var_eqb var_eqb_eq). split; auto.
+  - apply andb_true_iff in E. destruct E as [Ev El].
+    apply terms_eqb_sound in El. subst l'.
+    destruct (perm_eqb_incl var_eqb var_eqb_sound _ _ Ev) as (I1 & I2).
+    intros x Hx. apply H. cbn [fv] in *.
+    apply (diff_In var_eqb var_eqb_eq) in Hx. destruct Hx as [Hx Hn].
+    apply (diff_In var_eqb var_eqb_eq). split; auto.
+  - destruct (perm_eqb_incl term_eqb term_eqb_sound _ _ E) as (I1 & I2).
+    apply sub_node_intro; auto. apply sub_node_elim in H; auto.
+    rewrite Forall_forall in *. auto.
+  - destruct (perm_eqb_incl term_eqb term_eqb_sound _ _ E) as (I1 & I2).
+    apply sub_node_intro; auto. apply sub_node_elim in H; auto.
+    rewrite Forall_forall in *. auto.
+  - destruct (perm_eqb_incl term_eqb term_eqb_sound _ _ E) as (I1 & I2).
+    apply sub_node_intro; auto. apply sub_node_elim in H; auto.
+    rewrite Forall_forall in *. auto.
+Qed.
+Lemma sub_reorder S ora o args r : sub S r -> sub S (reorder ora o args r).
+Proof.
+  intros H. unfold reorder. destruct (ora o args) as [r'|]; auto.
+  destruct (same_upto_order r r') eqn:E; auto. eapply sub_same_upto_order; eauto.
+Qed.
+#[export] Hint Resolve sub_reorder : subdb.
+
+Lemma sub_same_pair S args a : same_pair args = Some a -> Forall (sub S) args -> sub S a.
+Proof.
+  unfold same_pair. destruct args as [|x [|y [|z t]]]; try discriminate.
+  destruct (term_eqb x y); [|discriminate]. intros E H. inversion E; subst. now inversion H.
+Qed.
+Lemma sub_r_and S ora args : Forall (sub S) args -> sub S (r_and ora args).
+Proof.
+  intros H. unfold r_and. destruct (same_pair args) eqn:E; [eapply sub_same_pair; eauto|].
+  destruct (nary_loop is_true is_false is_and args []) eqn:E2; auto with subdb.
+  apply sub_reorder. apply sub_mk_and. eapply sub_nary_loop; [| exact H | constructor | exact E2].
+  intros a Ha. now rewrite (is_and_top _ Ha).
+Qed.
+Lemma sub_r_or S ora args : Forall (sub S) args -> sub S (r_or ora args).
+Proof.
+  intros H. unfold r_or. destruct (same_pair args) eqn:E; [eapply sub_same_pair; eauto|].
+  destruct (nary_loop is_false is_true is_or args []) eqn:E2; auto with subdb.
+  apply sub_reorder. apply sub_mk_or. eapply sub_nary_loop; [| exact H | constructor | exact E2].
+  intros a Ha. now rewrite (is_or_top _ Ha).
+Qed.
+Lemma sub_r_iff S a b : sub S a -> sub S b -> sub S (r_iff a b).
+Proof. intros Ha Hb. unfold r_iff. destruct (top a); destruct (top b); try destruct b0; try destruct b1; try destruct (term_eqb a b); auto with subdb. Qed.
+Lemma sub_r_implies S a b : sub S a -> sub S b -> sub S (r_implies a b).
+Proof. intros Ha Hb. unfold r_implies. destruct (top a); destruct (top b); try destruct b0; try destruct b1; try destruct (term_eqb a b); auto with subdb. Qed.
+Lemma sub_r_equals S a b r : r_equals a b = Some r -> sub S a -> sub S b -> sub S r.
+Proof. unfold r_equals. intros E Ha Hb. crush E; auto with subdb. Qed.
+Lemma sub_r_ite S c a b : sub S c -> sub S a -> sub S b -> sub S (r_ite c a b).
+Proof. intros Hc Ha Hb. unfold r_ite. destruct (term_eqb a b); auto. destruct (top c); try destruct b0; auto with subdb. Qed.
+Lemma sub_num_cmp S f a b r : num_cmp f a b = Some r -> sub S r.
+Proof. unfold num_cmp. intros E. crush E; auto with subdb. Qed.
+Lemma sub_r_le S a b r : r_le a b = Some r -> sub S a -> sub S b -> sub S r.
+Proof.
+  unfold r_le. intros E Ha Hb.
+  destruct (is_constant a && is_constant b); [eapply sub_num_cmp; eauto|].
+  destruct (is_zero a && is_minus b) eqn:E1.
+  - apply andb_true_iff in E1. destruct E1 as [_ Em]. inversion E; subst.
+    unfold mk_le. sub_tac; apply sub_arg; auto; now rewrite (is_minus_top _ Em).
+  - destruct (is_zero b && is_minus b) eqn:E2.
+    + apply andb_true_iff in E2. destruct E2 as [_ Em]. inversion E; subst.
+      unfold mk_le. sub_tac; apply sub_arg; auto; now rewrite (is_minus_top _ Em).
+    + inversion E; subst. auto with subdb.
+Qed.
+Lemma sub_r_lt S a b r : r_lt a b = Some r -> sub S a -> sub S b -> sub S r.
+Proof.
+  unfold r_lt. intros E Ha Hb. destruct (is_constant a && is_constant b); [eapply sub_num_cmp; eauto|].
+  inversion E; subst; auto with subdb.
+Qed.
+
+(* ------------------------------------------------------------------ arithmetic rules *)
+Lemma sub_const_of_type S ty v c : const_of_type ty v = Some c -> sub S c.
+Proof. unfold const_of_type. intros E. crush E; auto with subdb. Qed.
+#[export] Hint Immediate sub_const_of_type : subdb.
+
+Definition PS (S : list var) (st : pstate) : Prop :=
+  Forall (sub S) (to_sum st) /\ Forall (sub S) (to_sub st).
+Lemma PS_sum S st x : PS S st -> sub S x -> PS S (p_sum st x).
+Proof. intros [H1 H2] Hx. split; cbn; auto. apply Forall_app; auto. Qed.
+Lemma PS_sub S st x : PS S st -> sub S x -> PS S (p_sub st x).
+Proof. intros [H1 H2] Hx. split; cbn; auto. apply Forall_app; auto. Qed.
+Lemma PS_err S st : PS S st -> PS S (p_err st).
+Proof. intros [H1 H2]. split; cbn; auto. Qed.
+Lemma Forall_removelast {A} (P : A -> Prop) l : Forall P l -> Forall P (removelast l).
+Proof.
+  induction 1 as [|x r Hx Hr IH]; cbn; auto. destruct r; auto.
+Qed.
+
+Lemma sub_plus_walk S ttype : forall x st, sub S x -> PS S st -> PS S (plus_walk ttype x st).
+Proof.
+  induction x as [o xs IH] using term_ind'. intros st Hx Hst.
+  cbn [plus_walk]. destruct (is_constant (T o xs)).
+  { destruct (num_value (T o xs)); [destruct Hst; split; cbn; auto | now apply PS_err]. }
+  destruct o; try (apply PS_sum; auto; fail).
+  - (* Plus *)
+    pose proof (sub_node_elim S OPlus xs eq_refl Hx) as Hxs. clear Hx.
+    revert st Hst. induction xs as [|y r IHr]; intros st Hst; auto.
+    inversion IH; subst. inversion Hxs; subst. apply H1; auto.
+  - (* Minus *)
+    pose proof (sub_node_elim S OMinus xs eq_refl Hx) as Hxs.
+    destruct xs as [|a [|b r]]; try (now apply PS_err).
+    inversion Hxs; subst. inversion H2; subst. apply PS_sub; auto. apply PS_sum; auto.
+  - (* Times *)
+    pose proof (sub_node_elim S OTimes xs eq_refl Hx) as Hxs.
+    destruct (last_opt xs) as [c|]; [|apply PS_sum; auto].
+    destruct (is_constant c); [|apply PS_sum; auto].
+    destruct (num_value c) as [cv|]; [|now apply PS_err].
+    destruct (fr_ltb cv (0%Z, 1%Z)); [|apply PS_sum; auto].
+    destruct (fr_eqb cv ((-1)%Z, 1%Z)).
+    + destruct (mk_times (removelast xs)) eqn:E; [|now apply PS_err].
+      apply PS_sub; auto. eapply sub_mk_times; eauto. now apply Forall_removelast.
+    + destruct (const_of_type ttype (fr_neg cv)) eqn:Ec; [|now apply PS_err].
+      destruct (mk_times (removelast xs ++ [t])) eqn:E; [|now apply PS_err].
+      apply PS_sub; auto. eapply sub_mk_times; eauto. apply Forall_app. split.
+      * now apply Forall_removelast.
+      * constructor; eauto with subdb.
+Qed.
+
+Lemma sub_r_plus S args r : r_plus args = Some r -> Forall (sub S) args -> sub S r.
+Proof.
+  unfold r_plus. destruct args as [|a0 rest]; [discriminate|]. intros E Hargs.
+  set (ttype := tc a0) in *.
+  set (st := fold_right (plus_walk ttype) _ (a0 :: rest)) in *.
+  assert (Hst : PS S st).
+  { subst st. generalize (a0 :: rest) Hargs. induction l as [|x l IH]; intros Hl; cbn.
+    - split; constructor.
+    - inversion Hl; subst. apply sub_plus_walk; auto. }
+  destruct Hst as [Hsum Hsub]. clearbody st.
+  destruct (perr st); [discriminate|]. unfold bind in E.
+  destruct (const_of_type ttype (cadd st)) as [constant|] eqn:Ec; [|discriminate].
+  assert (Hc : sub S constant) by eauto with subdb.
+  assert (Hts : Forall (sub S) (if is_zero constant then to_sum st else to_sum st ++ [constant])).
+  { destruct (is_zero constant); auto. apply Forall_app; auto. }
+  destruct (to_sum st) as [|s1 sr] eqn:Es; destruct (to_sub st) as [|b1 br] eqn:Eb.
+  - inversion E; subst; auto.
+  - destruct (mk_plus (b1 :: br)) as [sb|] eqn:Esb; [|discriminate].
+    assert (Hsb : sub S sb) by (eapply sub_mk_plus; eauto).
+    destruct (if is_zero constant then [] else [] ++ [constant]) eqn:Ets.
+    + destruct (const_of_type ttype ((-1)%Z, 1%Z)) eqn:Em; [|discriminate].
+      eapply sub_mk_times; eauto. sub_tac.
+    + destruct (mk_plus (t :: l)) eqn:Ep; [|discriminate]. inversion E; subst.
+      unfold mk_minus. sub_tac. eapply sub_mk_plus; eauto.
+  - eapply sub_mk_plus; eauto.
+  - destruct (mk_plus (b1 :: br)) as [sb|] eqn:Esb; [|discriminate].
+    assert (Hsb : sub S sb) by (eapply sub_mk_plus; eauto).
+    destruct (if is_zero constant then s1 :: sr else (s1 :: sr) ++ [constant]) eqn:Ets.
+    + destruct (const_of_type ttype ((-1)%Z, 1%Z)) eqn:Em; [|discriminate].
+      eapply sub_mk_times; eauto. sub_tac.
+    + destruct (mk_plus (t :: l)) eqn:Ep; [|discriminate]. inversion E; subst.
+      unfold mk_minus. sub_tac. eapply sub_mk_plus; eauto.
+Qed.
+
+Lemma sub_times_walk S : forall x st, sub S x -> Forall (sub S) (t_args st) ->
+  Forall (sub S) (t_args (times_walk x st)).
+Proof.
+  induction x as [o xs IH] using term_ind'. intros st Hx Hst.
+  cbn [times_walk]. destruct (is_constant (T o xs)).
+  { destruct (is_zero (T o xs)); cbn; auto. destruct (num_value (T o xs)); cbn; auto. }
+  destruct o; try (cbn; apply Forall_app; split; auto; fail).
+  pose proof (sub_node_elim S OTimes xs eq_refl Hx) as Hxs. clear Hx.
+  revert st Hst. induction xs as [|y r IHr]; intros st Hst; auto.
+  inversion IH; subst. inversion Hxs; subst. apply H1; auto.
+Qed.
+Lemma sub_r_times S ora args r : r_times ora args = Some r -> Forall (sub S) args -> sub S r.
+Proof.
+  unfold r_times. destruct args as [|a0 rest]; [discriminate|]. intros E Hargs.
+  set (ttype := tc a0) in *.
+  set (st := fold_right times_walk _ (a0 :: rest)) in *.
+  assert (Hst : Forall (sub S) (t_args st)).
+  { subst st. generalize (a0 :: rest) Hargs. induction l as [|x l IH]; intros Hl; cbn.
+    - constructor.
+    - inversion Hl; subst. apply sub_times_walk; auto. }
+  clearbody st.
+  destruct (tzero st); [eauto with subdb|]. destruct (terr st); [discriminate|].
+  unfold bind in E. destruct (const_of_type ttype (cmul st)) as [const|] eqn:Ec; [|discriminate].
+  assert (Hc : sub S const) by eauto with subdb.
+  destruct (is_zero const); [inversion E; subst; auto|].
+  destruct (t_args st) as [|t1 tr] eqn:Et; [inversion E; subst; auto|].
+  destruct (mk_times (if is_one const then t1 :: tr else (t1 :: tr) ++ [const])) eqn:Em; [|discriminate].
+  inversion E; subst. apply sub_reorder. eapply sub_mk_times; eauto.
+  destruct (is_one const); auto. apply Forall_app; auto.
+Qed.
+
+Lemma sub_r_pow S a e r : r_pow a e = Some r -> sub S a -> sub S e -> sub S r.
+Proof.
+  unfold r_pow, bind. intros E Ha He.
+  destruct (top a); try (eapply sub_mk_pow; eauto; fail); crush E; auto with subdb.
+Qed.
+Lemma sub_r_minus S a b r : r_minus a b = Some r -> sub S a -> sub S b -> sub S r.
+Proof.
+  unfold r_minus. intros E Ha Hb.
+  destruct (top a); destruct (top b); crush E; auto with subdb.
+Qed.
+Lemma sub_r_toreal S a r : r_toreal a = Some r -> sub S a -> sub S r.
+Proof. unfold r_toreal. intros E Ha. crush E; eauto with subdb. Qed.
+Lemma sub_r_div S a b r : r_div a b = Some r -> sub S a -> sub S b -> sub S r.
+Proof.
+  unfold r_div, bind. intros E Ha Hb.
+  destruct (is_constant a && is_constant b && negb (is_zero b)).
+  { crush E; auto with subdb. }
+  destruct (is_constant a && is_zero a); [inversion E; subst; auto|].
+  destruct (is_constant b && is_one b); [inversion E; subst; auto|].
+  eapply sub_mk_div; eauto.
+Qed.
+
+(* ------------------------------------------------------------------ bit-vector rules *)
+Ltac bv_rule E := unfold bind in E; crush E; eauto with subdb.
+
+Lemma sub_r_bv_and S w a b r : r_bv_and w a b = Some r -> sub S a -> sub S b -> sub S r.
+Proof. unfold r_bv_and. intros E Ha Hb. bv_rule E. Qed.
+Lemma sub_r_bv_not S w a r : r_bv_not w a = Some r -> sub S a -> sub S r.
+Proof. unfold r_bv_not. intros E Ha. bv_rule E. Qed.
+Lemma sub_r_bv_neg S w a r : r_bv_neg w a = Some r -> sub S a -> sub S r.
+Proof. unfold r_bv_neg. intros E Ha. bv_rule E. Qed.
+Lemma sub_r_bv_or S w a b r : r_bv_or w a b = Some r -> sub S a -> sub S b -> sub S r.
+Proof. unfold r_bv_or. intros E Ha Hb. bv_rule E. Qed.
+Lemma sub_r_bv_xor S w a b r : r_bv_xor w a b = Some r -> sub S a -> sub S b -> sub S r.
+Proof. unfold r_bv_xor. intros E Ha Hb. bv_rule E. Qed.
+Lemma sub_r_bv_add S w a b r : r_bv_add w a b = Some r -> sub S a -> sub S b -> sub S r.
+Proof. unfold r_bv_add. intros E Ha Hb. bv_rule E. Qed.
+Lemma sub_r_bv_mul S w a b r : r_bv_mul w a b = Some r -> sub S a -> sub S b -> sub S r.
+Proof. unfold r_bv_mul. intros E Ha Hb. bv_rule E. Qed.
+Lemma sub_r_bv_udiv S w a b r : r_bv_udiv w a b = Some r -> sub S a -> sub S b -> sub S r.
+Proof. unfold r_bv_udiv. intros E Ha Hb. bv_rule E. Qed.
+Lemma sub_r_bv_urem S w a b r : r_bv_urem w a b = Some r -> sub S a -> sub S b -> sub S r.
+Proof. unfold r_bv_urem. intros E Ha Hb. bv_rule E. Qed.
+Lemma sub_r_bv_ult S a b r : r_bv_ult a b = Some r -> sub S a -> sub S b -> sub S r.
+Proof. unfold r_bv_ult. intros E Ha Hb. bv_rule E. Qed.
+Lemma sub_r_bv_ule S a b r : r_bv_ule a b = Some r -> sub S a -> sub S b -> sub S r.
+Proof. unfold r_bv_ule. intros E Ha Hb. bv_rule E. Qed.
+Lemma sub_r_bv_extract S s e a r : r_bv_extract s e a = Some r -> sub S a -> sub S r.
+Proof. unfold r_bv_extract. intros E Ha. bv_rule E. Qed.
+Lemma sub_r_bv_ror S k a r : r_bv_ror k a = Some r -> sub S a -> sub S r.
+Proof. unfold r_bv_ror. intros E Ha. bv_rule E. Qed.
+Lemma sub_r_bv_rol S k a r : r_bv_rol k a = Some r -> sub S a -> sub S r.
+Proof. unfold r_bv_rol. intros E Ha. bv_rule E. Qed.
+Lemma sub_r_bv_sext S w k a r : r_bv_sext w k a = Some r -> sub S a -> sub S r.
+Proof. unfold r_bv_sext. intros E Ha. bv_rule E. Qed.
+Lemma sub_r_bv_zext S w k a r : r_bv_zext w k a = Some r -> sub S a -> sub S r.
+Proof. unfold r_bv_zext. intros E Ha. bv_rule E. Qed.
+Lemma sub_r_bv_concat S a b r : r_bv_concat a b = Some r -> sub S a -> sub S b -> sub S r.
+Proof. unfold r_bv_concat. intros E Ha Hb. destruct (top a); destruct (top b); bv_rule E. Qed.
+Lemma sub_r_bv_shift S k sh a b r : r_bv_shift k sh a b = Some r -> sub S a -> sub S b -> sub S r.
+Proof. unfold r_bv_shift. intros E Ha Hb. bv_rule E. Qed.
+Lemma sub_r_bv_sub S w a b r : r_bv_sub w a b = Some r -> sub S a -> sub S b -> sub S r.
+Proof.
+  unfold r_bv_sub. intros E Ha Hb.
+  destruct (bv_value b) as [rhs|].
+  - destruct (rhs =? 0)%Z; [inversion E; subst; auto|].
+    destruct (bv_value a); [eauto with subdb|].
+    destruct (term_eqb a b); [eauto with subdb | inversion E; subst; auto with subdb].
+  - destruct (term_eqb a b); [eauto with subdb | inversion E; subst; auto with subdb].
+Qed.
+Lemma sub_r_bv_scmp S k f refl a b r : r_bv_scmp k f refl a b = Some r -> sub S a -> sub S b -> sub S r.
+Proof. unfold r_bv_scmp. intros E Ha Hb. bv_rule E. Qed.
+Lemma sub_r_bv_comp S a b r : r_bv_comp a b = Some r -> sub S a -> sub S b -> sub S r.
+Proof. unfold r_bv_comp. intros E Ha Hb. bv_rule E. Qed.
+Lemma sub_neg_c S a r : neg_c a = Some r -> sub S a -> sub S r.
+Proof. unfold neg_c. apply sub_r_bv_neg. Qed.
+#[export] Hint Immediate sub_neg_c sub_r_bv_udiv sub_r_bv_urem sub_r_bv_neg : subdb.
+Ltac fwd :=
+  repeat match goal with
+         | H : neg_c ?a = Some ?r, Ha : sub ?S ?a |- _ =>
+             lazymatch goal with _ : sub S r |- _ => fail | _ => pose proof (sub_neg_c S a r H Ha) end
+         | H : r_bv_udiv ?w ?a ?b = Some ?r, Ha : sub ?S ?a, Hb : sub ?S ?b |- _ =>
+             lazymatch goal with _ : sub S r |- _ => fail | _ => pose proof (sub_r_bv_udiv S w a b r H Ha Hb) end
+         | H : r_bv_urem ?w ?a ?b = Some ?r, Ha : sub ?S ?a, Hb : sub ?S ?b |- _ =>
+             lazymatch goal with _ : sub S r |- _ => fail | _ => pose proof (sub_r_bv_urem S w a b r H Ha Hb) end
+         | H : Some ?a = Some ?r, Ha : sub ?S ?a |- _ =>
+             lazymatch goal with _ : sub S r |- _ => fail | _ => (assert (sub S r) by (inversion H; subst; exact Ha)) end
+         end.
+Lemma sub_r_bv_sdiv S a b r : r_bv_sdiv a b = Some r -> sub S a -> sub S b -> sub S r.
+Proof.
+  unfold r_bv_sdiv, bind. intros E Ha Hb.
+  destruct (bv_signed_value a); [|inversion E; subst; auto with subdb].
+  destruct (bv_signed_value b); [|inversion E; subst; auto with subdb].
+  repeat (destr_in E; try discriminate E); fwd; auto.
+Qed.
+Lemma sub_r_bv_srem S a b r : r_bv_srem a b = Some r -> sub S a -> sub S b -> sub S r.
+Proof.
+  unfold r_bv_srem, bind. intros E Ha Hb.
+  destruct (bv_signed_value a) as [sa|]; [|inversion E; subst; auto with subdb].
+  destruct (bv_signed_value b) as [sb|]; [|inversion E; subst; auto with subdb].
+  destruct (sa <? 0)%Z; destruct (sb <? 0)%Z;
+    repeat (destr_in E; try discriminate E); fwd; auto.
+Qed.
+Lemma sub_r_bv_ashr S w a b r : r_bv_ashr w a b = Some r -> sub S a -> sub S b -> sub S r.
+Proof.
+  unfold r_bv_ashr, bind, r_bv_lshr. intros E Ha Hb.
+  destruct (bv_signed_value a); [|inversion E; subst; auto with subdb].
+  destruct (bv_value b); [|inversion E; subst; auto with subdb].
+  destruct (r_bv_shift BLshr py_shr a b) eqn:Es; [|discriminate].
+  assert (sub S t) by (eapply sub_r_bv_shift; eauto).
+  crush E; eauto with subdb.
+Qed.
+Lemma sub_r_bv_tonatural S a r : r_bv_tonatural a = Some r -> sub S a -> sub S r.
+Proof. unfold r_bv_tonatural. intros E Ha. crush E; auto with subdb; sub_tac. Qed.
+
+(* ------------------------------------------------------------------ string rules *)
+Lemma sub_r_str S k args r : r_str k args = Some r -> Forall (sub S) args -> sub S r.
+Proof.
+  unfold r_str, bind. intros E H.
+  destruct k; crush E; auto with subdb; try (eapply sub_mk_strconcat; eauto).
+Qed.
+
+(* ------------------------------------------------------------------ array rules *)
+Definition PP (S : list var) (l : list (term * term)) : Prop :=
+  Forall (fun kv => sub S (fst kv) /\ sub S (snd kv)) l.
+Lemma PP_pairs_of S : forall l, Forall (sub S) l -> PP S (pairs_of l).
+Proof.
+  fix IH 1. intros [|k [|v r]] H; cbn; try constructor.
+  - inversion H; subst. inversion H3; subst. cbn. auto.
+  - inversion H; subst. inversion H3; subst. apply IH; auto.
+Qed.
+Lemma PP_assoc_set S k v : sub S k -> sub S v -> forall l, PP S l -> PP S (assoc_set k v l).
+Proof.
+  intros Hk Hv. induction l as [|[k' v'] r IH]; intros H; cbn.
+  - constructor; cbn; auto.
+  - inversion H; subst. destruct (term_eqb k k'); constructor; cbn; auto.
+    exact (IH H3).
+Qed.
+Lemma PP_dict_of_pairs S l : PP S l -> PP S (dict_of_pairs l).
+Proof.
+  unfold dict_of_pairs. assert (G : forall acc, PP S acc -> PP S l ->
+    PP S (fold_left (fun acc kv => assoc_set (fst kv) (snd kv) acc) l acc)).
+  { induction l as [|kv r IH]; intros acc Ha Hl; cbn; auto.
+    inversion Hl; subst. destruct H1. apply IH; auto. apply PP_assoc_set; auto. }
+  intros H. apply G; auto. constructor.
+Qed.
+Lemma PP_assoc_get S k : forall l v, PP S l -> assoc_get k l = Some v -> sub S v.
+Proof.
+  induction l as [|[k' v'] r IH]; intros v H E; cbn in E; [discriminate|].
+  inversion H; subst. destruct (term_eqb k k'); [inversion E; subst; cbn in *; tauto | eauto].
+Qed.
+Lemma PP_insert S kv : (sub S (fst kv) /\ sub S (snd kv)) -> forall l, PP S l -> PP S (insert_assign kv l).
+Proof.
+  intros Hkv. induction l as [|kv' r IH]; intros H; cbn.
+  - constructor; auto.
+  - inversion H; subst. destruct (lex_ltb _ _); constructor; auto.
+    exact (IH H3).
+Qed.
+Lemma PP_sort S l : PP S l -> PP S (sort_assign l).
+Proof.
+  unfold sort_assign. induction 1 as [|kv r Hkv Hr IH]; cbn; [constructor|]. now apply PP_insert.
+Qed.
+Lemma PP_filter S f l : PP S l -> PP S (filter f l).
+Proof.
+  induction 1 as [|kv r Hkv Hr IH]; cbn; [constructor|]. destruct (f kv); auto. constructor; auto.
+Qed.
+Lemma PP_flatten S l : PP S l -> Forall (sub S) (flatten_assign l).
+Proof.
+  induction 1 as [|[k v] r Hkv Hr IH]; cbn; [constructor|]. cbn in Hkv. destruct Hkv. auto.
+Qed.
+Lemma sub_mk_array S it d asg r : mk_array it d asg = Some r -> sub S d -> PP S asg -> sub S r.
+Proof.
+  unfold mk_array. intros E Hd Ha. destruct (forallb _ asg); [|discriminate]. inversion E; subst.
+  apply sub_node_intro; auto. constructor; auto.
+  apply PP_flatten, PP_sort, PP_filter. exact Ha.
+Qed.
+Lemma is_array_value_top a : is_array_value a = true -> transparent (top a) = true.
+Proof. unfold is_array_value. destruct (top a); try discriminate; auto. Qed.
+Lemma sub_r_select S a i r : r_select a i = Some r -> sub S a -> sub S i -> sub S r.
+Proof.
+  unfold r_select. intros E Ha Hi. destruct (is_array_value a && is_constant i) eqn:C.
+  - apply andb_true_iff in C. destruct C as [C _].
+    pose proof (sub_targs S a (is_array_value_top _ C) Ha) as Hx.
+    destruct (targs a) as [|d rest]; [discriminate|]. inversion Hx; subst. inversion E; subst.
+    destruct (assoc_get i (pairs_of rest)) eqn:G; auto.
+    eapply PP_assoc_get; eauto. now apply PP_pairs_of.
+  - inversion E; subst. auto with subdb.
+Qed.
+Lemma sub_r_store S a i v r : r_store a i v = Some r -> sub S a -> sub S i -> sub S v -> sub S r.
+Proof.
+  unfold r_store. intros E Ha Hi Hv. destruct a as [o xs].
+  destruct xs as [|d rest]; destruct o; try (inversion E; subst; auto with subdb; fail).
+  destruct (is_constant i); [|inversion E; subst; auto with subdb].
+  pose proof (sub_node_elim S (OArrayValue it) (d :: rest) eq_refl Ha) as Hx. inversion Hx; subst.
+  eapply sub_mk_array; eauto. apply PP_assoc_set; auto. apply PP_dict_of_pairs. now apply PP_pairs_of.
+Qed.
+Lemma sub_r_array_value S it args r : r_array_value it args = Some r -> Forall (sub S) args -> sub S r.
+Proof.
+  unfold r_array_value. intros E H. destruct args as [|d rest]; [discriminate|]. inversion H; subst.
+  eapply sub_mk_array; eauto. apply PP_dict_of_pairs. now apply PP_pairs_of.
+Qed.
+
+(* ------------------------------------------------------------------ all transparent operators *)
+Lemma sub_rule_transparent S ora o args r : transparent o = true ->
+  rule ora o args = Some r -> Forall (sub S) args -> sub S r.
+Proof.
+  intros Ho E H.
+  destruct o; try discriminate Ho; cbn [rule] in E; unfold un, bin, tern in E.
+  - inversion E; subst. now apply sub_r_and.
+  - inversion E; subst. now apply sub_r_or.
+  - destruct args as [|a [|? ?]]; try discriminate. inversion E; subst. inversion H; subst. auto with subdb.
+  - destruct args as [|a [|b [|? ?]]]; try discriminate. inversion E; subst.
+    inversion H; subst. inversion H3; subst. now apply sub_r_implies.
+  - destruct args as [|a [|b [|? ?]]]; try discriminate. inversion E; subst.
+    inversion H; subst. inversion H3; subst. now apply sub_r_iff.
+  - now apply (sub_r_plus S args r).
+  - destruct args as [|a [|b [|? ?]]]; try discriminate.
+    inversion H; subst. inversion H3; subst. eapply sub_r_minus; eauto.
+  - eapply sub_r_times; eauto.
+  - destruct args as [|a [|b [|? ?]]]; try discriminate.
+    inversion H; subst. inversion H3; subst. eapply sub_r_le; eauto.
+  - destruct args as [|a [|b [|? ?]]]; try discriminate.
+    inversion H; subst. inversion H3; subst. eapply sub_r_lt; eauto.
+  - destruct args as [|a [|b [|? ?]]]; try discriminate.
+    inversion H; subst. inversion H3; subst. eapply sub_r_equals; eauto.
+  - destruct args as [|a [|b [|c [|? ?]]]]; try discriminate. inversion E; subst.
+    inversion H; subst. inversion H3; subst. inversion H5; subst. now apply sub_r_ite.
+  - destruct args as [|a [|? ?]]; try discriminate. inversion H; subst. eapply sub_r_toreal; eauto.
+  - (* OBV *)
+    destruct k;
+      try (destruct args as [|a [|b [|? ?]]]; try discriminate;
+           inversion H; subst; try (inversion H3; subst)); 
+      try (destruct args as [|a [|b ?]]; try discriminate;
+           inversion H; subst; try (inversion H3; subst));
+      try (destruct args as [|a ?]; try discriminate; inversion H; subst);
+      eauto using sub_r_bv_and, sub_r_bv_not, sub_r_bv_neg, sub_r_bv_or, sub_r_bv_xor, sub_r_bv_add,
+        sub_r_bv_mul, sub_r_bv_udiv, sub_r_bv_urem, sub_r_bv_concat, sub_r_bv_shift, sub_r_bv_sub,
+        sub_r_bv_comp, sub_r_bv_sdiv, sub_r_bv_srem, sub_r_bv_ashr.
+  - (* OBVRel *)
+    destruct k; destruct args as [|a [|b ?]]; try discriminate;
+      inversion H; subst; inversion H3; subst;
+      eauto using sub_r_bv_ult, sub_r_bv_ule, sub_r_bv_scmp.
+  - destruct args as [|a ?]; try discriminate. inversion H; subst. eapply sub_r_bv_extract; eauto.
+  - destruct args as [|a ?]; try discriminate. inversion H; subst. eapply sub_r_bv_rol; eauto.
+  - destruct args as [|a ?]; try discriminate. inversion H; subst. eapply sub_r_bv_ror; eauto.
+  - destruct args as [|a ?]; try discriminate. inversion H; subst. eapply sub_r_bv_zext; eauto.
+  - destruct args as [|a ?]; try discriminate. inversion H; subst. eapply sub_r_bv_sext; eauto.
+  - eapply sub_r_str; eauto.
+  - destruct args as [|a [|b [|? ?]]]; try discriminate.
+    inversion H; subst. inversion H3; subst. eapply sub_r_select; eauto.
+  - destruct args as [|a [|b [|c [|? ?]]]]; try discriminate.
+    inversion H; subst. inversion H3; subst. inversion H5; subst. eapply sub_r_store; eauto.
+  - eapply sub_r_array_value; eauto.
+  - destruct args as [|a [|b ?]]; try discriminate.
+    inversion H; subst. inversion H3; subst. eapply sub_r_div; eauto.
+  - destruct args as [|a [|b ?]]; try discriminate.
+    inversion H; subst. inversion H3; subst. eapply sub_r_pow; eauto.
+  - destruct args as [|a ?]; try discriminate. inversion H; subst. eapply sub_r_bv_tonatural; eauto.
+Qed.
+
+(* ------------------------------------------------------------------ quantifiers *)
+Lemma sub_r_quant_forall S ora vs b :
+  (forall x, In x (fv b) -> ~ In x vs -> In x S) ->
+  sub S (r_quant ora (OForall vs) mk_forall vs b).
+Proof.
+  intros H. unfold r_quant.
+  set (varset := filter (fun v => mem var_eqb v (fv b)) (dedupe var_eqb vs)).
+  assert (Hvs : forall x, In x vs -> In x (fv b) -> In x varset).
+  { intros x Hx Hb. apply filter_In. split.
+    - now apply (dedupe_In var_eqb var_eqb_eq).
+    - now apply (mem_In var_eqb var_eqb_eq). }
+  destruct varset as [|v0 vr] eqn:Ev.
+  - intros x Hx. apply H; auto. intros Hin. exact (Hvs x Hin Hx).
+  - apply sub_reorder. unfold mk_forall. intros x Hx. cbn [fv] in Hx.
+    apply (diff_In var_eqb var_eqb_eq) in Hx. destruct Hx as [Hx Hn].
+    apply In_unions_fv in Hx. destruct Hx as (a & [<-|[]] & Hx).
+    apply H; auto.
+Qed.
+Lemma sub_r_quant_exists S ora vs b :
+  (forall x, In x (fv b) -> ~ In x vs -> In x S) ->
+  sub S (r_quant ora (OExists vs) mk_exists vs b).
+Proof.
+  intros H. unfold r_quant.
+  set (varset := filter (fun v => mem var_eqb v (fv b)) (dedupe var_eqb vs)).
+  assert (Hvs : forall x, In x vs -> In x (fv b) -> In x varset).
+  { intros x Hx Hb. apply filter_In. split.
+    - now apply (dedupe_In var_eqb var_eqb_eq).
+    - now apply (mem_In var_eqb var_eqb_eq). }
+  destruct varset as [|v0 vr] eqn:Ev.
+  - intros x Hx. apply H; auto. intros Hin. exact (Hvs x Hin Hx).
+  - apply sub_reorder. unfold mk_exists. intros x Hx. cbn [fv] in Hx.
+    apply (diff_In var_eqb var_eqb_eq) in Hx. destruct Hx as [Hx Hn].
+    apply In_unions_fv in Hx. destruct Hx as (a & [<-|[]] & Hx).
+    apply H; auto.
+Qed.
+
+(* ------------------------------------------------------------------ the whole simplifier *)
+Lemma simp_rule_rule ora o args r : simp_rule ora o args = Some r -> rule ora o args = Some r.
+Proof.
+  unfold simp_rule, bind. destruct (rule ora o args) as [r'|]; [|discriminate].
+  destruct (tc r'); [|discriminate]. auto.
+Qed.
+
+Fixpoint map_opt {A B} (f : A -> option B) (l : list A) : option (list B) :=
+  match l with
+  | [] => Some []
+  | x :: r => match f x, map_opt f r with Some a, Some b => Some (a :: b) | _, _ => None end
+  end.
+Lemma simplify_opt_unfold ora o args :
+  simplify_opt ora (T o args) =
+  match map_opt (simplify_opt ora) args with Some args' => simp_rule ora o args' | None => None end.
+Proof.
+  cbn [simplify_opt].
+  replace ((fix go (l : list term) : option (list term) :=
+              match l with
+              | [] => Some []
+              | x :: r => match simplify_opt ora x, go r with
+                          | Some a, Some b => Some (a :: b)
+                          | _, _ => None
+                          end
+              end) args) with (map_opt (simplify_opt ora) args); auto.
+  induction args as [|x r IH]; cbn; auto. now rewrite IH.
+Qed.
+Lemma map_opt_Forall2 {A B} (f : A -> option B) : forall l l', map_opt f l = Some l' ->
+  Forall2 (fun a b => f a = Some b) l l'.
+Proof.
+  induction l as [|x r IH]; intros l' E; cbn in E.
+  - inversion E; constructor.
+  - destruct (f x) eqn:Ex; [|discriminate]. destruct (map_opt f r) eqn:Er; [|discriminate].
+    inversion E; subst. constructor; auto.
+Qed.
+
+(* For every order oracle: the result of the model mentions only symbols that are free in the
+   input (function names count as symbols, as in FreeVarsOracle). *)
+Theorem simplify_no_new_symbols : forall ora t r,
+  simplify_opt ora t = Some r -> incl (fv r) (fv t).
+Proof.
+  intros ora. induction t as [o args IH] using term_ind'. intros r E.
+  rewrite simplify_opt_unfold in E.
+  destruct (map_opt (simplify_opt ora) args) as [args'|] eqn:Em; [|discriminate].
+  apply simp_rule_rule in E.
+  pose proof (map_opt_Forall2 _ _ _ Em) as F2.
+  assert (Hargs : forall S, (forall a, In a args -> incl (fv a) S) -> Forall (sub S) args').
+  { intros S HS. clear E Em. induction F2 as [|a a' l l' Ha Hl IHl]; constructor.
+    - pose proof (Forall_inv IH) as IHa. intros x Hx. apply (HS a); [cbn; auto|]. exact (IHa a' Ha x Hx).
+    - apply IHl; [exact (Forall_inv_tail IH)|]. intros b Hb. apply HS. cbn; auto. }
+  destruct (transparent o) eqn:Ho.
+  - change (sub (fv (T o args)) r). eapply sub_rule_transparent; eauto.
+    apply Hargs. intros a Ha x Hx. rewrite (fv_transparent _ _ Ho). apply In_unions_fv. eauto.
+  - destruct o; try discriminate Ho; cbn [rule] in E.
+    + (* Forall *)
+      unfold un in E. destruct args' as [|b [|? ?]]; try discriminate. inversion E; subst.
+      change (sub (fv (T (OForall vs) args)) (r_quant ora (OForall vs) mk_forall vs b)).
+      apply sub_r_quant_forall. intros x Hx Hn.
+      inversion F2 as [|a0 b0 l0 l0' Hab Hrest]; subst. inversion Hrest; subst.
+      pose proof (Forall_inv IH) as IHa.
+      cbn [fv]. apply (diff_In var_eqb var_eqb_eq). split; auto.
+      apply In_unions_fv. exists a0. split; [cbn; auto|]. exact (IHa b Hab x Hx).
+    + (* Exists *)
+      unfold un in E. destruct args' as [|b [|? ?]]; try discriminate. inversion E; subst.
+      change (sub (fv (T (OExists vs) args)) (r_quant ora (OExists vs) mk_exists vs b)).
+      apply sub_r_quant_exists. intros x Hx Hn.
+      inversion F2 as [|a0 b0 l0 l0' Hab Hrest]; subst. inversion Hrest; subst.
+      pose proof (Forall_inv IH) as IHa.
+      cbn [fv]. apply (diff_In var_eqb var_eqb_eq). split; auto.
+      apply In_unions_fv. exists a0. split; [cbn; auto|]. exact (IHa b Hab x Hx).
+    + (* Symbol *) inversion E; subst. intros x Hx. exact Hx.
+    + (* Function *)
+      unfold mk_function in E. destruct args' as [|a' r'].
+      * inversion E; subst. intros x Hx. cbn in Hx. destruct Hx as [<-|[]].
+        cbn [fv]. apply (union_In var_eqb var_eqb_eq). left. cbn; auto.
+      * destruct t; try discriminate. destruct (Nat.eqb _ _); [|discriminate]. inversion E; subst.
+        intros x Hx. cbn [fv] in *. apply (union_In var_eqb var_eqb_eq) in Hx.
+        apply (union_In var_eqb var_eqb_eq). destruct Hx as [Hx|Hx]; auto. right.
+        apply In_unions_fv in Hx. destruct Hx as (a & Ha & Hx).
+        assert (HF : Forall (sub (unions var_eqb (map fv args))) (a' :: r')).
+        { apply Hargs. intros b Hb y Hy. apply In_unions_fv. eauto. }
+        rewrite Forall_forall in HF. exact (HF a Ha x Hx).
+    + inversion E; subst. intros x Hx. cbn in Hx. contradiction.
+    + inversion E; subst. intros x Hx. cbn in Hx. contradiction.
+    + inversion E; subst. intros x Hx. cbn in Hx. contradiction.
+    + inversion E; subst. intros x Hx. cbn in Hx. contradiction.
+    + inversion E; subst. intros x Hx. cbn in Hx. contradiction.
+Qed.
+
+Corollary simplify_with_no_new_symbols : forall ora t, incl (fv (simplify_with ora t)) (fv t).
+Proof.
+  intros ora t. unfold simplify_with. destruct (simplify_opt ora t) eqn:E.
+  - eapply simplify_no_new_symbols; eauto.
+  - apply incl_refl.
+Qed.
+
+(* ------------------------------------------------------------------ constant arguments fold *)
+(* Operators for which it is proved that constant arguments are folded to a constant (whenever
+   the rule returns at all): all bit-vector operators and relations, bv2nat, and the Boolean
+   connectives Not / Iff / Implies. *)
+Definition fold_op (o : op) : bool :=
+  match o with
+  | OBV _ _ | OBVRel _ | OBVExtract _ _ _ | OBVRol _ _ | OBVRor _ _ | OBVZext _ _ | OBVSext _ _
+  | OBVToNat | ONot | OIff | OImplies => true
+  | _ => false
+  end.
+Definition arg_const_for (o : op) (a : term) : bool :=
+  match o with
+  | ONot | OIff | OImplies => is_bool_constant a
+  | _ => is_bv_constant a
+  end.
+
+Lemma const_mk_bv v w r : mk_bv v w = Some r -> is_bv_constant r = true.
+Proof.
+  unfold mk_bv. destruct (v <? 0)%Z; [discriminate|]. destruct (2 ^ w <=? v)%Z; [discriminate|].
+  intros H; inversion H; reflexivity.
+Qed.
+Lemma const_mk_bv_bits bits w r : mk_bv_bits bits w = Some r -> is_bv_constant r = true.
+Proof.
+  unfold mk_bv_bits. destruct (int_of_bits bits); [|discriminate].
+  destruct w as [w'|]; [destruct (w' =? zlen bits)%Z; [|discriminate]|]; apply const_mk_bv.
+Qed.
+Lemma bvc_is_const r : is_bv_constant r = true -> is_const r = true.
+Proof. unfold is_bv_constant, is_const. destruct (top r); auto. Qed.
+Lemma bvc_value a : is_bv_constant a = true -> exists v, bv_value a = Some v.
+Proof. unfold is_bv_constant, bv_value. destruct (top a); try discriminate. eauto. Qed.
+Lemma bvc_signed a : is_bv_constant a = true -> exists v, bv_signed_value a = Some v.
+Proof. unfold is_bv_constant, bv_signed_value. destruct (top a); try discriminate. eauto. Qed.
+Lemma bvc_bin_str a : is_bv_constant a = true -> exists v, bv_bin_str a = Some v.
+Proof. unfold is_bv_constant, bv_bin_str. destruct (top a); try discriminate. eauto. Qed.
+Lemma bvc_is_constant a : is_bv_constant a = true -> is_constant a = true.
+Proof. destruct a as [o xs]. unfold is_bv_constant. cbn. destruct o; try discriminate; auto. Qed.
+
+#[export] Hint Immediate const_mk_bv const_mk_bv_bits : constdb.
+Ltac use_bvc :=
+  repeat match goal with
+         | H : is_bv_constant ?a = true |- _ =>
+             let v := fresh "v" in let E := fresh "Ev" in
+             let s := fresh "sv" in let Es := fresh "Es" in
+             let b := fresh "bs" in let Eb := fresh "Eb" in
+             destruct (bvc_value a H) as [v E]; destruct (bvc_signed a H) as [s Es];
+             destruct (bvc_bin_str a H) as [b Eb];
+             pose proof (bvc_is_constant a H);
+             revert H
+         end; intros.
+Ltac fold_rule E :=
+  unfold bind in E;
+  repeat match goal with
+         | H : bv_value _ = Some _ |- _ => rewrite H in E
+         | H : bv_signed_value _ = Some _ |- _ => rewrite H in E
+         | H : bv_bin_str _ = Some _ |- _ => rewrite H in E
+         | H : is_constant _ = true |- _ => rewrite H in E
+         | H : is_bv_constant _ = true |- _ => rewrite H in E
+         end;
+  crush E; eauto with constdb.
+
+Lemma fold_bv_neg w a r : is_bv_constant a = true -> r_bv_neg w a = Some r -> is_bv_constant r = true.
+Proof. intros Ha E. use_bvc. unfold r_bv_neg in E. fold_rule E. Qed.
+Lemma fold_bv_udiv w a b r : is_bv_constant a = true -> is_bv_constant b = true ->
+  r_bv_udiv w a b = Some r -> is_bv_constant r = true.
+Proof. intros Ha Hb E. use_bvc. unfold r_bv_udiv in E. fold_rule E. Qed.
+Lemma fold_bv_urem w a b r : is_bv_constant a = true -> is_bv_constant b = true ->
+  r_bv_urem w a b = Some r -> is_bv_constant r = true.
+Proof. intros Ha Hb E. use_bvc. unfold r_bv_urem in E. fold_rule E. Qed.
+Lemma fold_bv_shift k sh a b r : is_bv_constant a = true -> is_bv_constant b = true ->
+  r_bv_shift k sh a b = Some r -> is_bv_constant r = true.
+Proof. intros Ha Hb E. use_bvc. unfold r_bv_shift in E. fold_rule E. Qed.
+Lemma fold_neg_c a r : is_bv_constant a = true -> neg_c a = Some r -> is_bv_constant r = true.
+Proof. unfold neg_c. apply fold_bv_neg. Qed.
+
+Ltac fwdc :=
+  repeat match goal with
+         | H : neg_c ?a = Some ?r, Ha : is_bv_constant ?a = true |- _ =>
+             lazymatch goal with _ : is_bv_constant r = true |- _ => fail
+                                | _ => pose proof (fold_neg_c a r Ha H) end
+         | H : r_bv_udiv ?w ?a ?b = Some ?r, Ha : is_bv_constant ?a = true, Hb : is_bv_constant ?b = true |- _ =>
+             lazymatch goal with _ : is_bv_constant r = true |- _ => fail
+                                | _ => pose proof (fold_bv_udiv w a b r Ha Hb H) end
+         | H : r_bv_urem ?w ?a ?b = Some ?r, Ha : is_bv_constant ?a = true, Hb : is_bv_constant ?b = true |- _ =>
+             lazymatch goal with _ : is_bv_constant r = true |- _ => fail
+                                | _ => pose proof (fold_bv_urem w a b r Ha Hb H) end
+         | H : Some ?a = Some ?r, Ha : is_bv_constant ?a = true |- _ =>
+             lazymatch goal with _ : is_bv_constant r = true |- _ => fail
+                                | _ => (assert (is_bv_constant r = true) by (inversion H; subst; exact Ha)) end
+         end.
+
+Lemma fold_bv_sdiv a b r : is_bv_constant a = true -> is_bv_constant b = true ->
+  r_bv_sdiv a b = Some r -> is_bv_constant r = true.
+Proof.
+  intros Ha Hb E. unfold r_bv_sdiv, bind in E.
+  destruct (bvc_signed a Ha) as [sa Esa]. destruct (bvc_signed b Hb) as [sb Esb].
+  rewrite Esa, Esb in E.
+  repeat (destr_in E; try discriminate E); fwdc; auto.
+Qed.
+Lemma fold_bv_srem a b r : is_bv_constant a = true -> is_bv_constant b = true ->
+  r_bv_srem a b = Some r -> is_bv_constant r = true.
+Proof.
+  intros Ha Hb E. unfold r_bv_srem, bind in E.
+  destruct (bvc_signed a Ha) as [sa Esa]. destruct (bvc_signed b Hb) as [sb Esb].
+  rewrite Esa, Esb in E.
+  destruct (sa <? 0)%Z; destruct (sb <? 0)%Z;
+    repeat (destr_in E; try discriminate E); fwdc; auto.
+Qed.
+Lemma fold_bv_ashr w a b r : is_bv_constant a = true -> is_bv_constant b = true ->
+  r_bv_ashr w a b = Some r -> is_bv_constant r = true.
+Proof.
+  intros Ha Hb E. unfold r_bv_ashr, bind, r_bv_lshr in E.
+  destruct (bvc_signed a Ha) as [sa Esa]. destruct (bvc_value b Hb) as [vb Evb].
+  rewrite Esa, Evb in E.
+  destruct (r_bv_shift BLshr py_shr a b) eqn:Es; [|discriminate].
+  pose proof (fold_bv_shift _ _ _ _ _ Ha Hb Es).
+  crush E; eauto with constdb.
+Qed.
+
+Theorem const_args_fold : forall ora o args r,
+  fold_op o = true -> Forall (fun a => arg_const_for o a = true) args ->
+  rule ora o args = Some r -> is_const r = true.
+Proof.
+  intros ora o args r Ho H E.
+  destruct o; try discriminate Ho; cbn [rule] in E; unfold un, bin, tern in E; unfold arg_const_for in H.
+  - (* Not *)
+    destruct args as [|a [|? ?]]; try discriminate. inversion E; subst. inversion H; subst.
+    unfold r_not, is_bool_constant in *. destruct (top a); try discriminate; reflexivity.
+  - (* Implies *)
+    destruct args as [|a [|b [|? ?]]]; try discriminate. inversion E; subst.
+    inversion H as [|? ? Ha H']; subst. inversion H' as [|? ? Hb ?]; subst.
+    unfold r_implies, is_bool_constant, is_const in *.
+    destruct (top a); try discriminate; destruct (top b) eqn:Eb; try discriminate.
+    destruct b0; cbn; [rewrite Eb|]; reflexivity.
+  - (* Iff *)
+    destruct args as [|a [|b [|? ?]]]; try discriminate. inversion E; subst.
+    inversion H as [|? ? Ha H']; subst. inversion H' as [|? ? Hb ?]; subst.
+    unfold r_iff, is_bool_constant, is_const in *.
+    destruct (top a); try discriminate; destruct (top b) eqn:Eb; try discriminate. reflexivity.
+  - (* OBV *)
+    apply bvc_is_const.
+    destruct k;
+      try (destruct args as [|a [|b [|? ?]]]; try discriminate);
+      try (destruct args as [|a [|b ?]]; try discriminate);
+      try (destruct args as [|a ?]; try discriminate);
+      repeat match goal with
+             | H : Forall _ (_ :: _) |- _ => let Hx := fresh "Hc" in let Hr := fresh "Hr" in
+                                             inversion H as [|? ? Hx Hr]; subst; clear H
+             end;
+      eauto using fold_bv_neg, fold_bv_udiv, fold_bv_urem, fold_bv_shift, fold_bv_sdiv, fold_bv_srem, fold_bv_ashr;
+      use_bvc;
+      first [ unfold r_bv_not in E | unfold r_bv_and in E | unfold r_bv_or in E | unfold r_bv_xor in E
+            | unfold r_bv_concat in E | unfold r_bv_add in E | unfold r_bv_sub in E | unfold r_bv_mul in E
+            | unfold r_bv_comp in E ];
+      try fold_rule E.
+    + (* concat *)
+      unfold is_bv_constant in *. destruct (top a); try discriminate. destruct (top b); try discriminate.
+      eauto with constdb.
+    + (* sub *)
+      rewrite Ev, Ev0 in E. destruct (v0 =? 0)%Z; [inversion E; subst; auto|]. eauto with constdb.
+  - (* OBVRel *)
+    destruct k; destruct args as [|a [|b ?]]; try discriminate;
+      inversion H as [|? ? Ha H']; subst; inversion H' as [|? ? Hb ?]; subst; use_bvc.
+    + unfold r_bv_ult in E. fold_rule E.
+    + unfold r_bv_ule in E. fold_rule E.
+    + unfold r_bv_scmp in E. fold_rule E.
+    + unfold r_bv_scmp in E. fold_rule E.
+  - destruct args as [|a ?]; try discriminate. inversion H; subst. use_bvc. apply bvc_is_const.
+    unfold r_bv_extract in E. fold_rule E.
+  - destruct args as [|a ?]; try discriminate. inversion H; subst. use_bvc. apply bvc_is_const.
+    unfold r_bv_rol in E. fold_rule E.
+  - destruct args as [|a ?]; try discriminate. inversion H; subst. use_bvc. apply bvc_is_const.
+    unfold r_bv_ror in E. fold_rule E.
+  - destruct args as [|a ?]; try discriminate. inversion H; subst. use_bvc. apply bvc_is_const.
+    unfold r_bv_zext in E. fold_rule E.
+  - destruct args as [|a ?]; try discriminate. inversion H; subst. use_bvc. apply bvc_is_const.
+    unfold r_bv_sext in E. fold_rule E.
+  - destruct args as [|a ?]; try discriminate. inversion H; subst. use_bvc.
+    unfold r_bv_tonatural in E. fold_rule E.
 Qed.
